@@ -99,7 +99,9 @@ class Item(object):
 class SubsetOut(object):
     def __init__(self):
         self.items = []
-        self.links = {}       # index of attribute item -> index of owner item
+        self.links = {}       # index of attribute item -> index of owner item (bitmap-driven attributes)
+        self.assoc = {}       # index of associated-field item -> index of the element it precedes
+        self.meaning = {}     # index of attribute item -> index of its 031021 / 008023 / 008024 meaning item
 
 
 class Reference(object):
@@ -158,6 +160,13 @@ class Reference(object):
         self.backrefs = None
         self.targets = None       # list of owner indices (zero bits)
         self.target_iter = None
+        # meaning elements
+        self.assoc_meaning = None
+        self.stat_meaning = {224: None, 225: None}
+        self.stat_waiting = {224: False, 225: False}
+
+    def _outs_now(self):
+        return self.outs if self.compressed else [self.outs[self.cur]]
 
     # ------------------------------------------------------------------ emission
     def _emit(self, label, kind, eid, values, enc=None):
@@ -391,6 +400,11 @@ class Reference(object):
             n = sum(self.assoc)
             aid = marker if marker is not None else d
             v = self._read_uint_field(n, lambda r: r, codeflag_width=n)
+            ai = self._n_items()
+            for out in self._outs_now():
+                out.assoc[ai] = ai + 1
+                if self.assoc_meaning is not None:
+                    out.meaning[ai] = self.assoc_meaning
             self._emit('A%05d' % aid, 'assoc', None, v)
 
         if marker is None:
@@ -409,6 +423,15 @@ class Reference(object):
                 self.qa = 0   # a marker value is not quality information: the class-33 run is over
             label = '%s%05d' % (MARKER_PREFIX[marker], d)
             kind = 'marker'
+
+        if marker is None:
+            here = self._n_items()
+            if d == 31021 and self.assoc:
+                self.assoc_meaning = here
+            elif d == 8023 and self.stat_waiting[224]:
+                self.stat_meaning[224], self.stat_waiting[224] = here, False
+            elif d == 8024 and self.stat_waiting[225]:
+                self.stat_meaning[225], self.stat_waiting[225] = here, False
 
         if unit == 'CCITT IA5':
             nbytes = self.nbytes if self.nbytes else nbits // 8
@@ -472,6 +495,8 @@ class Reference(object):
                 self._emit('%06d' % d, 'opval', None, self._const(0))
                 if op == 222:
                     self.qa = 1
+                if op in (224, 225):
+                    self.stat_waiting[op] = True
             elif y == 255 and op != 222:
                 self._marker(d)
             else:
@@ -562,6 +587,9 @@ class Reference(object):
         name, unit, scale, ref, nbits = self.B[owner_eid]
         attr_index = self._n_items() + (1 if (self.assoc and (owner_eid // 1000) % 100 != 31) else 0)
         self._link(attr_index, owner)
+        if d // 1000 in (224, 225) and self.stat_meaning[d // 1000] is not None:
+            for out in self._outs_now():
+                out.meaning[attr_index] = self.stat_meaning[d // 1000]
         if d == 225255:
             self._element(owner_eid, marker=d, width_delta=1, ref_override=-(2 ** nbits))
         else:
